@@ -206,7 +206,31 @@ def _check_writer(res, cname, m, binding, cls=None):
     if not fallible:
         if m.name == "execute":
             raise AnalysisError(f"{cname}.{m.name}: fallible operation (eval/create_table) not found")
-        res.ok("C20-S3", f"{cname}.{m.name}: no fallible operation precedes the store", nontrivial=False)
+        # an insert of a caller-supplied value: whatever examines that value (describe / describe_table raise on duplicate, non-string or
+        # missing column names, lazy frames ...) has to run before the binding is written, or a refused insert still changes the space
+        params = set(m.params()) - {"self"}
+        late = None
+        for (st, kind, dsc) in effects:
+            if kind != "store":
+                continue
+            node = g.node_of(st)
+            stored_names = {n.id for n in ast.walk(st.value) if isinstance(n, ast.Name)} if isinstance(st, ast.Assign) else set()
+            if not (stored_names & params):
+                continue
+            after = g.reachable_from(node.id) - {node.id}
+            for nid in after:
+                n2 = g.nodes[nid]
+                if n2.stmt is None or n2.kind not in ("stmt", "return"):
+                    continue
+                for c in ast.walk(n2.stmt):
+                    if isinstance(c, ast.Call) and (dotted_name(c.func) or "").split(".")[-1] in ("describe", "describe_table", "descr"):
+                        late = (st, c)
+        if late is not None:
+            res.fail_at("C20-S3", m, "validation-after-store",
+                        f"{cname}.{m.name} writes `{unparse(late[0])[:40]}` and only then calls `{unparse(late[1])[:40]}`, which raises for a table it cannot describe "
+                        f"(duplicate or non-string column names, no columns, a lazy frame): the insert fails, yet keys() lists the key, an existing entry is replaced, and describe(key) raises from then on", late[1])
+        else:
+            res.ok("C20-S3", f"{cname}.{m.name}: nothing that can refuse the value runs after the binding is written")
         return
     fnode = fallible[0]
     for (st, kind, dsc) in effects:
